@@ -85,9 +85,19 @@ func plans(id, tier string) (Plan, bool) {
 			{Pkg: pkgV2, Harness: "c06_match", Params: map[bool]string{false: "docs=4;maxbytes=1200;positions=0;kinds=notice,marker,split", true: "docs=60;maxbytes=6000;positions=0"}[th], Shards: 16},
 		}}, true
 	case "C07":
+		if th {
+			// the two big families get their own workers (and deadlines)
+			return Plan{Level: "exploration", Jobs: []Job{
+				{Pkg: pkgV2, Harness: "c07_small", Shards: 16},
+				{Pkg: pkgV2, Harness: "c07_corpus", Params: "t=0.8;families=scatter", Shards: 16},
+				{Pkg: pkgV2, Harness: "c07_corpus", Params: "t=0.8;families=exact,edit1,periodic,truncate,concat,scenario", Shards: 16},
+				{Pkg: pkgV2, Harness: "c07_corpus", Params: "t=0.8;families=edit2", Shards: 16},
+			}}, true
+		}
 		return Plan{Level: "exploration", Jobs: []Job{
 			{Pkg: pkgV2, Harness: "c07_small", Shards: pick(6, 16)},
-			{Pkg: pkgV2, Harness: "c07_corpus", Params: "t=0.8", Shards: 16},
+			{Pkg: pkgV2, Harness: "c07_corpus", Params: "t=0.8;families=exact,edit1,periodic,truncate,concat,scenario" + map[bool]string{false: ",scatter,edit2", true: ""}[th], Shards: 16},
+			{Pkg: pkgV2, Harness: "c07_corpus", Params: "t=0.8;docs=c07findings;families=scatter,periodic", Shards: 7},
 		}}, true
 	case "C08":
 		return Plan{Level: "fault_enumeration", Jobs: []Job{
